@@ -31,6 +31,7 @@ CONSTANTS
   MaxOps = 6
   MaxSnaps = 1
   MaxClock = 27
+  ExportFrom = 0
   WithPost = FALSE
   Bugs = {}
 VIEW View
